@@ -286,13 +286,33 @@ impl Compiler {
         Ok(())
     }
 
+    /// Compiles a block whose value is used: leaves exactly one value on the stack,
+    /// the value of the block's last statement if that is an expression (statement) and null otherwise.
+    fn compile_block_value(&mut self, stmts: &[Stmt]) -> Result<(), Error> {
+        self.compile_block_statement(stmts)?;
+
+        // an empty block has pushed its null already
+        if !stmts.is_empty() {
+            if self.last_instruction_is(OpCode::Pop) {
+                self.remove_last_instruction();
+            } else {
+                self.emit_opcode(OpCode::Null);
+            }
+        }
+        Ok(())
+    }
+
     fn compile_statement(&mut self, stmt: &Stmt) -> Result<(), Error> {
         match stmt {
             Stmt::Expr(expr) => {
                 self.compile_expression(expr)?;
                 self.emit_opcode(OpCode::Pop);
             }
-            Stmt::Block(stmts) => self.compile_block_statement(stmts)?,
+            Stmt::Block(stmts) => {
+                // a block used as a statement: its value is dropped like that of any other expression statement
+                self.compile_block_value(stmts)?;
+                self.emit_opcode(OpCode::Pop);
+            }
             Stmt::Let(name, value) => {
                 let symbol = self.symbols.define(name)?;
                 self.compile_expression(value)?;
@@ -563,11 +583,7 @@ impl Compiler {
                 self.emit_opcode(OpCode::JumpIfFalse);
                 self.emit_u16(JUMP_PLACEHOLDER);
 
-                self.compile_block_statement(consequence)?;
-
-                if self.last_instruction_is(OpCode::Pop) {
-                    self.remove_last_instruction();
-                }
+                self.compile_block_value(consequence)?;
 
                 let pos_jump = self.instructions.len();
                 self.emit_opcode(OpCode::Jump);
@@ -576,10 +592,7 @@ impl Compiler {
                 self.change_jump_operand_at(pos_jump_if_false, to_u16(self.instructions.len())?);
 
                 if let Some(alternative) = alternative {
-                    self.compile_block_statement(alternative)?;
-                    if self.last_instruction_is(OpCode::Pop) {
-                        self.remove_last_instruction();
-                    }
+                    self.compile_block_value(alternative)?;
                 } else {
                     self.emit_opcode(OpCode::Null);
                 }
@@ -599,13 +612,7 @@ impl Compiler {
                 self.emit_opcode(OpCode::JumpIfFalse);
                 self.emit_u16(JUMP_PLACEHOLDER);
                 self.emit_opcode(OpCode::Pop);
-                self.compile_block_statement(body)?;
-
-                if self.last_instruction_is(OpCode::Pop) {
-                    self.remove_last_instruction();
-                } else {
-                    self.emit_opcode(OpCode::Null);
-                }
+                self.compile_block_value(body)?;
 
                 // emit jump instruction to loop condition
                 self.emit_opcode(OpCode::Jump);
